@@ -19,7 +19,7 @@ ASSUMPTIONS = [LEVEL_NOTE, "readelf is ground truth for the public symbols"]
 
 
 def plan(tier):
-    return {"n": 150 if tier == "quick" else 1500, "floor": 40 if tier == "quick" else 400}
+    return {"n": 150 if tier == "quick" else 600, "floor": 40 if tier == "quick" else 160}
 
 
 def rule(tier):
